@@ -56,7 +56,7 @@ func yamlUnmarshalStream(in []byte) ([]any, error) {
 			return nil, err
 		}
 
-		obj, err := yamlTranslateNode(&node)
+		obj, err := yamlTranslateNode(&node, 0)
 		if err != nil {
 			return nil, err
 		}
@@ -67,16 +67,23 @@ func yamlUnmarshalStream(in []byte) ([]any, error) {
 	return ret, nil
 }
 
-func yamlTranslateNode(node *yaml.Node) (any, error) {
+func yamlTranslateNode(node *yaml.Node, depth int) (any, error) {
+	depth++
+
+	// An anchor may (indirectly) contain an alias to itself.
+	if depth > 1000 {
+		return nil, fmt.Errorf("yaml nesting too deep: %w", ErrCircularRef)
+	}
+
 	switch node.Kind {
 	case yaml.DocumentNode:
-		return yamlTranslateNode(node.Content[0])
+		return yamlTranslateNode(node.Content[0], depth)
 
 	case yaml.SequenceNode:
 		ret := []any{}
 
 		for _, v := range node.Content {
-			v2, err := yamlTranslateNode(v)
+			v2, err := yamlTranslateNode(v, depth)
 			if err != nil {
 				return nil, err
 			}
@@ -92,7 +99,7 @@ func yamlTranslateNode(node *yaml.Node) (any, error) {
 		// First see if there's a merge statement, and merge the referenced map(s) into ret.
 		for i := 0; i+1 < len(node.Content); i += 2 {
 			if node.Content[i].Value == "<<" {
-				v2, err := yamlTranslateNode(node.Content[i+1])
+				v2, err := yamlTranslateNode(node.Content[i+1], depth)
 				if err != nil {
 					return nil, err
 				}
@@ -110,7 +117,7 @@ func yamlTranslateNode(node *yaml.Node) (any, error) {
 				continue
 			}
 
-			v2, err := yamlTranslateNode(node.Content[i+1])
+			v2, err := yamlTranslateNode(node.Content[i+1], depth)
 			if err != nil {
 				return nil, err
 			}
@@ -152,7 +159,7 @@ func yamlTranslateNode(node *yaml.Node) (any, error) {
 		}
 
 	case yaml.AliasNode:
-		return yamlTranslateNode(node.Alias)
+		return yamlTranslateNode(node.Alias, depth)
 
 	case 0:
 		return nil, nil
